@@ -26,6 +26,15 @@ CLAIMED = {
          "Trusts the event recorder compiled with the real macros, gcc TSan on the pthread build (OpenMP build not judged: libgomp "
          "is invisible to TSan), Python models of curve arithmetic for the behavioural battery.",
          "trace monitor vs executable state-machine spec + ThreadSanitizer stress + differential context monitor", "DESIGN.md §3 C19"),
+ "C20": ("exploration",
+         "Trace monitors on -O2 builds of the library instrumented with -finstrument-functions and -fsanitize-coverage=trace-pc. "
+         "Primitives (dv_copy_sec, dv_swap_sec, dv_cmp_sec, util_cmp_sec, fp*_copy_sec): the recorded basic-block sequence must be "
+         "identical for every selector bit and data pattern at every length 0..3*field digits. Regular routines (ep/ep2/ed *_mul_monty "
+         "and *_mul_lwreg, eb_mul_lodah, bn_mxp_monty, fp_exp_monty, fb_exp_monty, g1/g2_mul_sec, gt_exp_sec on every parameter set of "
+         "the 255/256/381-bit builds): the group-level call trace must be identical for all scalars of the full bit length in ten "
+         "classes. Controls that must vary (dv_cmp, ep_mul_lwnaf, bn_mxp_slide) are run every time.",
+         "Trusts that instrumentation does not change control flow at basic-block/call level; says nothing about micro-architectural timing.",
+         "execution-trace monitor (trace-pc basic-block traces + group-level call traces) over secret classes", "DESIGN.md §3 C20"),
 }
 NOT_YET = {}
 
